@@ -244,7 +244,10 @@ func patterns(n int, boundary int, thorough bool) []pattern {
 
 // ---- buffer configurations ----
 
-var bufCfgs = []string{"default", "256", "257", "512", "1024", "pooled"}
+// "pooled": one value by Formatter.UnmarshalFromReader; "pooled-sequence": one UnmarshalFromReader call per
+// value of the stream on the same reader - the only stream position that entry point leaves behind is the
+// reader's, and the next call starts there.
+var bufCfgs = []string{"default", "256", "257", "512", "1024", "pooled", "pooled-sequence"}
 
 func newDecoder(cfg string, r io.Reader) *hio.Decoder {
 	switch cfg {
@@ -325,6 +328,31 @@ func reference(c cse, variant int) observed {
 func streamed(c cse, variant int, cfg string, p pattern) (observed, *scriptReader) {
 	types := destTypes(c, variant)
 	r := &scriptReader{data: c.Bytes, p: p, trace: 14695981039346656037}
+	if cfg == "pooled-sequence" {
+		var o observed
+		ptrs := make([]reflect.Value, len(types))
+		msg, stack := iocase.Guard(func() {
+			for i, t := range types {
+				ptrs[i] = reflect.New(t)
+				err := hio.Formatter{Simple: c.Simple}.UnmarshalFromReader(r, ptrs[i].Interface())
+				o.errs = append(o.errs, err != nil)
+				if err != nil {
+					o.errStr = err.Error()
+					o.vals = append(o.vals, "")
+					for len(o.errs) < len(types) { // like a decoder: after an error every further call fails
+						o.errs = append(o.errs, true)
+						o.vals = append(o.vals, "")
+					}
+					break
+				}
+				o.vals = append(o.vals, gen.Canon(ptrs[i].Elem()))
+			}
+		})
+		if msg != "" {
+			o.panicM, o.site = msg, iocase.PanicSite(stack)
+		}
+		return o, r
+	}
 	if cfg == "pooled" {
 		// Formatter.UnmarshalFromReader: one value from a pooled decoder; the decoder is not reachable afterwards
 		var o observed
@@ -355,11 +383,21 @@ type diff struct {
 }
 
 func compare(ref, got observed, pooled bool) *diff {
+	d := compare1(ref, got, pooled)
+	if d != nil && d.Kind != "panic" && d.Call >= 1 && len(got.errs) == len(ref.errs) && pooled && len(ref.errs) > 1 {
+		// (pooled-sequence) the first UnmarshalFromReader call agrees, a later one does not: it did not start
+		// where the value before it ended
+		d.Kind = "next-UnmarshalFromReader-starts-elsewhere"
+	}
+	return d
+}
+
+func compare1(ref, got observed, pooled bool) *diff {
 	if got.panicM != "" {
 		return &diff{"panic", got.panicM, got.site, len(got.errs)}
 	}
 	n := len(ref.errs)
-	if pooled {
+	if pooled && len(got.errs) == 1 {
 		n = 1
 	}
 	for i := 0; i < n; i++ {
@@ -434,6 +472,9 @@ func sig(v violRec) string {
 	if v.Kind == "panic" {
 		return fmt.Sprintf("C05|panic|at=%s|%s", v.Site, msgClass(v.What))
 	}
+	if v.Kind == "next-UnmarshalFromReader-starts-elsewhere" {
+		return "C05|pooled-sequence|next-UnmarshalFromReader-starts-elsewhere"
+	}
 	t := arrayLenRe.ReplaceAllString(v.Type, "[N]")
 	if v.Type == "interface {}" {
 		return fmt.Sprintf("C05|%s|type=interface {}|stream-kind=%s", v.Kind, v.Case.Kind)
@@ -493,7 +534,7 @@ func runCases(j job) result {
 							res.Distinct++ // a fragmentation not seen before for this stream, destination and buffer
 						}
 					}
-					d := compare(ref, got, cfg == "pooled")
+					d := compare(ref, got, strings.HasPrefix(cfg, "pooled"))
 					if d == nil {
 						continue
 					}
@@ -917,7 +958,7 @@ func replay(path string) {
 	}
 	ref := reference(v.Case, v.Variant)
 	got, _ := streamed(v.Case, v.Variant, v.Buf, v.Pattern)
-	if d := compare(ref, got, v.Buf == "pooled"); d != nil {
+	if d := compare(ref, got, strings.HasPrefix(v.Buf, "pooled")); d != nil {
 		fmt.Printf("REPRODUCED %s: %s %s\n", d.Kind, d.What, d.Site)
 		fmt.Printf("VIOLATION property=%s replay=%s\n", ID, path)
 		os.Exit(1)
